@@ -314,6 +314,39 @@ func getTarget(store string) *target {
 	return t
 }
 
+// inPlace makes cur (an entry object read from a store) carry the content of want by assigning fields; chunk
+// objects are reused and their file ids are set in text form only
+func inPlace(cur, want *filer.Entry, dropParsed bool) *filer.Entry {
+	cur.Attr, cur.Extended, cur.HardLinkId, cur.HardLinkCounter = want.Attr, want.Extended, want.HardLinkId, want.HardLinkCounter
+	cur.Content, cur.Remote = want.Content, want.Remote
+	text := func(s string, f *filer_pb.FileId) string {
+		if s != "" || f == nil {
+			return s
+		}
+		return fidText(f.VolumeId, f.FileKey, f.Cookie)
+	}
+	var chunks []*filer_pb.FileChunk
+	for i, nc := range want.Chunks {
+		if i >= len(cur.Chunks) {
+			chunks = append(chunks, nc)
+			continue
+		}
+		c := cur.Chunks[i]
+		c.FileId, c.SourceFileId = text(nc.FileId, nc.Fid), text(nc.SourceFileId, nc.SourceFid)
+		if dropParsed {
+			c.Fid, c.SourceFid = nil, nil
+		}
+		if c.SourceFileId == "" {
+			c.SourceFid = nil
+		}
+		c.Offset, c.Size, c.Mtime, c.ETag = nc.Offset, nc.Size, nc.Mtime, nc.ETag
+		c.CipherKey, c.IsCompressed, c.IsChunkManifest = nc.CipherKey, nc.IsCompressed, nc.IsChunkManifest
+		chunks = append(chunks, c)
+	}
+	cur.Chunks = chunks
+	return cur
+}
+
 func errText(err error) string {
 	if err == nil {
 		return ""
@@ -409,6 +442,16 @@ func main() {
 					d, _ := e["e"].(map[string]interface{})
 					ent := build(real(dir), name, d)
 					e["tok"] = token(ent) // before the call: the wrapper rewrites the chunks of the entry it is given
+					if rmw, _ := e["rmw"].(bool); rmw {
+						// read - modify - write: the entry object that the store returned is changed in place (its chunks keep
+						// whatever parsed form the store left in them; the new ids are set as text, the way a client edits
+						// chunk.FileId) and written back
+						if cur, err := st.FindEntry(ctx, util.NewFullPath(real(dir), name)); err == nil {
+							// the raw stores serialize a chunk as it is given (normalising the two forms of a file id is the
+							// wrapper's job): there the edited chunk objects are made consistent first
+							ent = inPlace(cur, ent, tr.S(rs, "via") == "direct")
+						}
+					}
 					if ev == "insert" {
 						e["err"] = errText(st.InsertEntry(ctx, ent))
 					} else {
